@@ -61,15 +61,23 @@ type clientWorld struct {
 	invoked []invocation
 	barrier chan struct{}
 
-	subs []*clientSub
-	ring []string // specification: the last dedupSize recorded message ids (oldest first)
+	noModel bool
+	subs    []*clientSub
+	ring    []string // specification: the last dedupSize recorded message ids (oldest first)
 	seq  int
 }
 
 func newClientWorld(r *corr.Run, accts []*acct) *clientWorld {
-	w := &clientWorld{r: r, nm: newNames(accts), self: accts[0], mem: &fakeMembership{}, barrier: make(chan struct{}, 1)}
+	return newClientWorldOpt(r, accts, accts[0], nil, false)
+}
+
+// newClientWorldOpt: `cr` non-nil makes the spaces keyed (payloads encrypted, keyId stamped); noModel
+// keeps the Lean model out (its client has no Crypto component).
+func newClientWorldOpt(r *corr.Run, accts []*acct, self *acct, cr real.Crypto, noModel bool) *clientWorld {
+	w := &clientWorld{r: r, nm: newNames(accts), self: self, mem: &fakeMembership{}, barrier: make(chan struct{}, 1), noModel: noModel}
 	w.svc = real.New(real.Deps{
 		Membership: w.mem,
+		Crypto:     cr,
 		Config:     real.Config{DedupSize: dedupSize, MaxPatternsPerSpace: clientCapSpace, MaxPayloadSize: maxPayload},
 	})
 	w.sh = w.svc.(streamhandler.StreamHandler)
@@ -89,7 +97,7 @@ func newClientWorld(r *corr.Run, accts []*acct) *clientWorld {
 
 func (w *clientWorld) emit(op, impl string) {
 	w.ops = append(w.ops, op)
-	if useModel {
+	if useModel && !w.noModel {
 		w.r.Check("C17", "pubsub.client", append([]string{}, w.ops...), w.r.Ask(op), impl)
 	}
 }
@@ -264,9 +272,23 @@ type recvOpts struct {
 	keyId        bool
 }
 
+// publisher-chosen message ids are only length-checked: id numbers below cornerIds are corner byte
+// patterns (0 = all zero = the value of a never-written ring slot, 1 = all 0xff, 2 = a single trailing 1)
+const cornerIds = 3
+
 func (w *clientWorld) msgId(n int) []byte {
 	b := make([]byte, real.VerifMsgIdLen)
-	copy(b, fmt.Sprintf("id%013d", n))
+	switch n {
+	case 0:
+	case 1:
+		for i := range b {
+			b[i] = 0xff
+		}
+	case 2:
+		b[len(b)-1] = 1
+	default:
+		copy(b, fmt.Sprintf("id%013d", n))
+	}
 	return b
 }
 
